@@ -38,8 +38,11 @@ def wire_args(inp, conc):
 
 def run_main(argv):
     out, err = io.StringIO(), io.StringIO()
-    with contextlib.redirect_stdout(out):
-        r = main(argv, f_err=err, return_mininec=True)
+    with contextlib.redirect_stdout(out), contextlib.redirect_stderr(err):
+        try:
+            r = main(argv, f_err=err, return_mininec=True)
+        except SystemExit as e:         # the option parser rejected the command line
+            r = 'usage-error-%s' % (e.code,)
     return r, out.getvalue() + err.getvalue()
 
 
